@@ -76,7 +76,9 @@ def progress_rule(model: Model, run: Run) -> None:
     """Every `while` loop in the filter string parser and in receive compares a counter with a length and
     advances the counter on every path to the back edge, or iterates a reader that is consumed by each
     successful read (truthiness of a reader/list that the body shrinks)."""
-    targets = [f"sansldap._filter.{n}" for n in ("_unpack_filter", "_unpack_complex_filter", "_unpack_simple_filter")] + ["sansldap._session.LDAPSession.receive"]
+    from ..anchors import filt as filter_anchors
+    fa = filter_anchors(model)
+    targets = [f.qualname for f in fa.parser_functions] + ["sansldap._session.LDAPSession.receive"]
     n = 0
     for q in targets:
         fi = model.functions.get(q)
@@ -97,13 +99,14 @@ def progress_rule(model: Model, run: Run) -> None:
             run.ob("E2-scanner-progress", ok, {"function": q.split(".")[-1], "loop": norm(t)})
             if not ok:
                 run.fail(Finding("E2-scanner-progress", q, f"while {norm(t)}", f"loop `while {norm(t)}` may reach its back edge without progress: {why}", model.loc(fi.module, w)))
-    run.floor("scanner loops", n, 4)
+    run.floor("scanner loops", n, 3)
     # no scanner call re-parses the same span: a recursive call inside an exception handler is a retry
-    for q in targets[:3]:
+    parser_names = {f.name for f in fa.scanners}
+    for q in targets[:-1]:
         fi = model.functions[q]
         for h in [x for x in walk_no_nested(fi.node) if isinstance(x, ast.ExceptHandler)]:
             for c in ast.walk(h):
-                if isinstance(c, ast.Call) and isinstance(c.func, ast.Name) and c.func.id.startswith("_unpack"):
+                if isinstance(c, ast.Call) and isinstance(c.func, ast.Name) and c.func.id in parser_names:
                     run.ob("E3-no-reparse-on-failure", False)
                     run.fail(Finding("E3-no-reparse-on-failure", q, norm(c)[:80], "a parser call is retried inside an exception handler: every nesting level then parses its operand twice on failure (2^depth)", model.loc(fi.module, c)))
         run.ob("E3-no-reparse-on-failure", True)
